@@ -53,6 +53,7 @@ type Op struct {
 	M    string `json:"m,omitempty"`
 	MV   uint64 `json:"mv,omitempty"`
 	Ms   int64  `json:"ms,omitempty"` // jump length
+	Rep  int    `json:"rep,omitempty"` // the op is issued Rep times in a row (long histories stay small on disk)
 }
 
 type Fault struct {
